@@ -521,6 +521,14 @@ func (g *c08Gen) family(f int) {
 			switch r.Intn(3) {
 			case 0:
 				body = J{"@context": asCtx, "type": "Note", "content": fmt.Sprint("n", i), "to": []string{st.Dave, st.Bob.ID, st.Carol.ID}}
+				if r.Intn(3) == 0 {
+					// also addressed to the sending actor itself, whose inbox the application knows
+					body["cc"] = st.Alice.ID
+					if st.W.Servers[0].StoredInbox == nil {
+						st.W.Servers[0].StoredInbox = map[string]string{}
+					}
+					st.W.Servers[0].StoredInbox[st.Alice.ID] = st.Alice.Inbox
+				}
 				g.dups = append(g.dups, fmt.Sprintf("r%d|net|%s#1", g.n, Pick(r, []string{st.Bob.Inbox, st.Carol.Inbox})))
 			case 1:
 				body = J{"@context": asCtx, "type": "Like", "actor": st.Alice.ID, "object": fmt.Sprintf("%s/l%d", st.RNote, i), "to": st.Dave}
